@@ -337,7 +337,7 @@ def m_split(ex, st, args, kwargs, node):
             s2 = st.fork().assume(z3.Not(has))
             out.append((s2, ex.new_list(s2, [s])))
         return out
-    return [(st, VUnk("str.split"))]
+    return ex.havoc_call(st, "str.split", list(args[1:]), node)      # tagged: a VC failing on this path is `unknown`
 
 
 def m_ljust(ex, st, args, kwargs, node):
@@ -348,7 +348,7 @@ def m_ljust(ex, st, args, kwargs, node):
         if c is not None and k is not None:
             return [(st, VStr(c.ljust(k, "0")))]
         return [(st, VStr(LJUST0(s.t, n)))]
-    return [(st, VUnk("str.ljust"))]
+    return ex.havoc_call(st, "str.ljust", list(args[1:]), node)
 
 
 SPLIT_ROOT = z3.Function("splitext_root", S, S)
@@ -397,6 +397,61 @@ SQF, SQJ = z3.SeqSort(FMS), z3.SeqSort(JsonS)
 SEQ_ELEM_KIND = {"Json": "Json", "FileMeta": "FileMeta"}
 
 
+# ---- second attempts for VCs z3 leaves `unknown` -------------------------------------------------------------
+# The listing VCs (sequences + recursive spec functions + a few quantified lemmas) are easy but z3's search is
+# sensitive to assertion order and load: the same VC is proved in 10 ms or times out.  A timed-out VC is retried
+# with other random seeds and short budgets; only an `unsat` counts.
+def _retry_prover(pc, goal, timeout_ms):
+    pcs = [p for p in pc if not z3.is_true(p)]
+    for seed in (0, 1, 7):
+        sol = z3.SolverFor("ALL") if seed == 7 else z3.Solver()
+        sol.set("timeout", 2500)
+        if seed == 0:
+            sol.set("smt.mbqi", False)      # every quantified hypothesis of this pack carries patterns: E-matching only
+        else:
+            sol.set("random_seed", seed)
+            sol.set("smt.random_seed", seed)
+        sol.add(*(pcs if seed != 7 else list(reversed(pcs))))
+        sol.add(z3.Not(goal))
+        if sol.check() == z3.unsat:
+            return True
+    return False
+
+
+# z3 5.1 answers `sat` on some VALID listing VCs (recursive spec functions over sequences): measured on the step
+# `Y ++ WALK(..) == files ++ WF(.., i+1)` -- the model it returns satisfies the goal it is supposed to falsify, and a
+# second run of the same query answers `unsat`.  A `sat` on a VC that mentions a recursive spec function is therefore
+# not a counter-model by itself: it becomes `unknown` (retried by _retry_prover, then decided by the native replayer).
+RECURSIVE_SPEC = frozenset({"walk", "walk_subfolders", "chain_files", "page_files", "page_folders", "chain_folders", "filter_prefix",
+                            "filtered_over_targets", "take", "page_url"})
+
+
+def _mentions_recursive_spec(pc, goal):
+    seen, stack = set(), list(pc) + [goal]
+    while stack:
+        x = stack.pop()
+        if x.get_id() in seen:
+            continue
+        seen.add(x.get_id())
+        if z3.is_app(x):
+            if x.decl().name() in RECURSIVE_SPEC:
+                return True
+            stack.extend(x.children())
+        elif z3.is_quantifier(x):
+            stack.append(x.body())
+    return False
+
+
+from pyvc import solve as _solve  # noqa: E402
+# C18's VCs are proved in well under a second each; on a changed tree dozens may be undecided, so the per-VC budget (z3, then the
+# retries above, then cvc5) is kept at 5 s instead of 10 s -- it only bounds how long an UNDECIDED answer takes
+_solve.QUICK_TIMEOUT_MS = min(_solve.QUICK_TIMEOUT_MS, 5000)
+if _mentions_recursive_spec.__name__ not in [getattr(f, "__name__", "") for f in _solve.SAT_UNTRUSTED]:
+    _solve.SAT_UNTRUSTED.append(_mentions_recursive_spec)
+if _retry_prover.__name__ not in [getattr(f, "__name__", "") for f in _solve.EXTRA_PROVERS]:
+    _solve.EXTRA_PROVERS.append(_retry_prover)
+
+
 # ================================================================ executor ==
 def subst_v(v: V, i, j):
     """v with the Int constant i replaced by the term j."""
@@ -431,9 +486,40 @@ class VSymBag(V):
 class CLoop(LoopSpec):
     """Loop spec with a ghost iteration counter (while loops: lc.i) and lists abstracted to sequences."""
 
-    def __init__(self, inv=None, label="", seq_lists=None):
+    def __init__(self, inv=None, label="", acc_sort=None):
         super().__init__(inv=inv, label=label)
-        self.seq_lists = seq_lists or {}
+        self.acc_sort = acc_sort      # element sort of the list the loop accumulates into (found semantically: `accumulator`)
+
+
+def fn_arg(lc, name):
+    """Entry value of a parameter of the function under verification (independent of the frame a loop runs in)."""
+    return lc.ex.entry_ctx.args[name]
+
+
+def cursor(lc):
+    """Current value of the page loop's cursor variable (the variable the `while` test reads)."""
+    name = lc.st.ghost.get("cursor")
+    v = lc.st.lookup(name) if name else None
+    if v is None or not isinstance(v, (VStr, VNoneT)):
+        raise ops.Unsupported("page cursor is not an optional string variable")
+    return v
+
+
+def page_url(lc):
+    """URL of the page the current iteration of the page loop works on (the cursor's value when the iteration began);
+    independent of the frame an item loop runs in (it may sit in an extracted helper)."""
+    v = lc.st.ghost.get("page")
+    if not isinstance(v, VStr):
+        raise ops.Unsupported("item loop outside a page loop")
+    return v
+
+
+def acc_list(lc):
+    """The list the loop accumulates into, by identity (a helper may know it under another name)."""
+    ref = lc.st.ghost.get("acc")
+    if ref is None or ref not in lc.st.heap:
+        raise ops.Unsupported("no accumulator list in this loop")
+    return VRef(ref)
 
 
 def ghost_y(st):
@@ -442,7 +528,14 @@ def ghost_y(st):
 
 
 def seq_of(st, v, sort):
-    """Sequence term of a list value: a concrete heap list or a 'seqlist'."""
+    """Sequence term of a list value: a concrete heap list, a 'seqlist', or the value of a call under contract
+    (`list(gen)` of a generator whose contract gives the yielded sequence); None if the shape is not recognised."""
+    if isinstance(v, VSeq):
+        if isinstance(v.tag, tuple) and v.tag[0] == "seq" and v.tag[1].sort() == z3.SeqSort(sort):
+            return v.tag[1]
+        return None
+    if not isinstance(v, VRef):
+        return None
     o = st.obj(v.ref)
     if o.kind == "seqlist":
         return o.data
@@ -481,6 +574,38 @@ class C18Executor(Executor):
                 return [(st, VInt(idx))]
         if name == "endswith" and len(args) == 1 and isinstance(args[0], VStr) and args[0].const() and len(args[0].const()) == 1:
             return [(st, VBool(z3.simplify(struct_endswith(self, st, str_parts(s.t), args[0].const()))))]
+        if name in ("endswith", "startswith") and len(args) == 1 and isinstance(args[0], (VSeq, VSymBag)):
+            fn = z3.SuffixOf if name == "endswith" else z3.PrefixOf
+            a, j = args[0], z3.Int(fresh_name("m"))
+            e = a.elem(j)
+            if not isinstance(e, VStr):
+                return self.havoc_call(st, f"str.{name}", list(args), node)
+            keep = a.keep(j) if isinstance(a, VSymBag) else z3.BoolVal(True)
+            return [(st, VBool(z3.Exists([j], z3.And(j >= 0, j < a.length, keep, fn(e.t, s.t)))))]
+        if name == "partition" and len(args) == 1 and isinstance(args[0], VStr) and args[0].const():
+            sepc = args[0].const()
+            idx = struct_index_of(self, st, s.t, sepc)
+            if idx is not None:
+                if z3.is_int_value(idx) and idx.as_long() == -1:
+                    return [(st, VTuple([s, VStr(""), VStr("")]))]
+                head = struct_substr(self, st, s.t, z3.IntVal(0), idx)
+                tail = struct_substr(self, st, s.t, z3.simplify(idx + len(sepc)), None)
+                if head is not None and tail is not None:
+                    return [(st, VTuple([VStr(head), VStr(sepc), VStr(tail)]))]
+            sep = args[0].t
+            has = z3.Contains(s.t, sep)
+            i0 = z3.IndexOf(s.t, sep, 0)
+            out = []
+            if self.feasible(st.pc, has):
+                s1 = st.fork().assume(has)
+                out.append((s1, VTuple([VStr(z3.SubString(s.t, 0, i0)), VStr(sepc),
+                                        VStr(z3.SubString(s.t, i0 + len(sepc), z3.Length(s.t) - i0 - len(sepc)))])))
+            if self.feasible(st.pc, z3.Not(has)):
+                out.append((st.fork().assume(z3.Not(has)), VTuple([s, VStr(""), VStr("")])))
+            return out
+        if name in ("split", "rsplit", "splitlines", "partition", "rpartition") and s.const() is None \
+                and f"str.{name}" not in self.reg.ext_models:
+            return self.havoc_call(st, f"str.{name}", list(args), node)      # tagged: a VC failing on this path is `unknown`
         if name == "encode":
             return self.str_method_encode(st, s)
         return super().str_method(st, s, name, args, kwargs, node)
@@ -605,30 +730,248 @@ class C18Executor(Executor):
                 return [(st, VBool(J_ISSTR(v.t)))]
         return super().b_isinstance(st, args, kwargs, node)
 
-    # -- generators: ghost sequence Y of everything yielded so far -------------
+    # -- loop specifications are chosen by the ROLE of a loop (what it iterates over), never by its position or by
+    #    the names of its locals: `while <cursor>` | for over JSON items | for over file records | for over strings.
+    #    The cursor of a while loop is the variable its test reads; the accumulator is the one list the body appends to.
+    def loop_role(self, node, it, st):
+        if isinstance(node, _ast.While):
+            return "while"
+        view = None
+        try:
+            view = self.seq_view(st, it)
+        except ops.Unsupported:
+            view = None
+        if view is None:
+            return None
+        probe = view[1](z3.Int("probe!role"))
+        if isinstance(probe, VExt) and probe.sort in ("Json", "FileMeta"):
+            return "for-json" if probe.sort == "Json" else "for-records"
+        if isinstance(probe, VStr):
+            return "for-strings"
+        return None
+
+    def loop_spec(self, node):
+        c = self.contract
+        if c is None or not any(isinstance(k, str) for k in c.loops):
+            return super().loop_spec(node)
+        it = self._iter_stack[-1] if getattr(self, "_iter_stack", None) and not isinstance(node, _ast.While) else None
+        st = self._iter_state[-1] if getattr(self, "_iter_state", None) and not isinstance(node, _ast.While) else None
+        role = self.loop_role(node, it, st)
+        return c.loops.get(role)
+
+    def symbolic_for(self, s, st, it):
+        self.__dict__.setdefault("_iter_stack", []).append(it)
+        self.__dict__.setdefault("_iter_state", []).append(st)
+        try:
+            spec = self.loop_spec(s)
+            if spec is None or spec.inv is None:
+                # a symbolic loop without an invariant is cut with `True` (everything it assigns is forgotten): an
+                # over-approximation, so a VC that fails afterwards is `unknown`, never a counterexample by itself
+                st.assume(z3.Bool(f"__havoc__@{self.loc(s)} loop over a symbolic sequence without an invariant"[:120]))
+            if spec is not None and self.loop_role(s, it, st) == "for-records":
+                st.assume(take_all())     # proved lemma (lemmas(): take-all.*), added only where a loop walks a record sequence
+            if getattr(spec, "acc_sort", None) is not None:
+                acc = self.accumulator(st, s.body)
+                if acc is None:
+                    self.unsupported(s, "loop with an accumulator invariant: no unique list the body appends to")
+                st.ghost["acc"] = st.lookup(acc).ref
+            return super().symbolic_for(s, st, it)
+        finally:
+            self._iter_stack.pop()
+            self._iter_state.pop()
+
+    def _exec_stmt(self, s, st):
+        # a Python exception inside the engine / the pack's models on an unforeseen code shape is a gap of the model, not a
+        # fact about the code: the function leaves the verifiable subset (obligations `unknown`, native replayer decides)
+        try:
+            return super()._exec_stmt(s, st)
+        except (AttributeError, TypeError, KeyError, IndexError, z3.Z3Exception) as e:
+            import traceback
+            where = traceback.extract_tb(e.__traceback__)[-1]
+            raise ops.Unsupported(f"{self.loc(s)} model does not cover this shape: {type(e).__name__}: {e} @ {where.name}:{where.lineno}")
+
+    def add_vc(self, kind, label, pc, goal, note="", loc=""):
+        g = goal.t if isinstance(goal, VBool) else (z3.BoolVal(goal) if isinstance(goal, bool) else goal)
+        pc = list(pc)
+        super().add_vc(kind, label, pc + unfold_instances(pc + [g]), g, note, loc)
+
+    def assign(self, tgt, v, st):
+        if isinstance(v, VExt) and v.sort == "Json" and z3.is_app(v.t) and v.t.decl().kind() == z3.Z3_OP_SEQ_NTH:
+            seq_t, idx = v.t.arg(0), v.t.arg(1)
+            if ("all-folders", seq_t.get_id()) in st.ghost:
+                # instance of members-by-index (lemmas()) for the folder list returned by _get_folders_from_url
+                st.assume(z3.Implies(z3.And(idx >= 0, idx < z3.Length(seq_t)), is_folder(v.t)))
+        return super().assign(tgt, v, st)
+
+    def accumulator(self, st, body):
+        """Name of the one local list the loop body mutates (None if there is not exactly one)."""
+        names = []
+        cur = st.ghost.get("acc")
+        if cur is not None:
+            for name, v in st.frame.env.items():
+                if isinstance(v, VRef) and v.ref == cur and cur in self.mutated_refs(body, st):
+                    return name
+        fr = st.frame
+        for name, v in fr.env.items():
+            if isinstance(v, VRef) and v.ref in st.heap and st.heap[v.ref].kind in ("list", "seqlist") and v.ref in self.mutated_refs(body, st):
+                names.append(name)
+        return names[0] if len(names) == 1 else None
+
+    # -- comprehension == loop: `yield from (e for x in S if c)`, `L.extend([e for x in S if c])`, `[e for x in S if c]`
+    #    over a symbolic sequence are executed as the equivalent for-loop (so the same invariant applies)
+    def comp_as_loop(self, comp, body_stmt):
+        g = comp.generators[0]
+        inner = body_stmt
+        for cnd in reversed(g.ifs):
+            inner = _ast.If(test=cnd, body=[inner], orelse=[])
+        loop = _ast.For(target=g.target, iter=g.iter, body=[inner], orelse=[], type_comment=None)
+        _ast.copy_location(loop, comp)
+        _ast.fix_missing_locations(loop)
+        return loop
+
+    def run_desugared(self, stmts, st, node):
+        out = []
+        for o in self.exec_block(stmts, st):
+            if o.kind == "fall":
+                out.append(o.st)
+            elif o.kind == "raise":
+                self.raise_in(o.st, o.val)
+            else:
+                self.unsupported(node, f"{o.kind} leaving a comprehension")
+        return out
+
+    def single_symbolic_comp(self, e, st):
+        if not isinstance(e, (_ast.GeneratorExp, _ast.ListComp)) or len(e.generators) != 1 or e.generators[0].is_async:
+            return False
+        mark = len(self.sinks[-1])
+        try:
+            its = self.ev(e.generators[0].iter, st.fork())
+        except ops.Unsupported:
+            its = []
+        del self.sinks[-1][mark:]
+        return bool(its) and any(self.concrete_items(s2, it) is None for (s2, it) in its)
+
     def on_yield(self, st, v, node):
-        if isinstance(v, VExt) and v.sort == "FileMeta":
+        if isinstance(v, VExt) and v.sort == "FileMeta" and self.inline_depth == 0:
             st.ghost["Y"] = z3.Concat(ghost_y(st), z3.Unit(v.t))
         else:
             st.ghost["Y_unknown"] = True
 
+    def generator_helper(self, st, call):
+        """`yield from helper(...)` where helper is a generator of this module without a contract: (fnode, self value)."""
+        if not isinstance(call, _ast.Call):
+            return None
+        f = call.func
+        if isinstance(f, _ast.Attribute) and isinstance(f.value, _ast.Name) and f.value.id == "self":
+            obj = st.lookup("self")
+            if not (isinstance(obj, VRef) and st.obj(obj.ref).kind == "obj"):
+                return None
+            q = f"{st.obj(obj.ref).cls}.{f.attr}"
+            if self.reg.get(f"{self.module.rel}::{q}") is not None:
+                return None
+            fnode = self.module.functions.get(q)
+            static = fnode is not None and any(_ast.unparse(d) == "staticmethod" for d in fnode.decorator_list)
+            self_val = None if static else obj
+        elif isinstance(f, _ast.Name) and st.lookup(f.id) is None and f.id in self.module.functions \
+                and self.reg.get(f"{self.module.rel}::{f.id}") is None:
+            fnode, self_val = self.module.functions[f.id], None
+        else:
+            return None
+        if fnode is None or any(fnode is x for x in self.cur_fn_stack):
+            return None
+        if not any(isinstance(x, (_ast.Yield, _ast.YieldFrom)) for x in _ast.walk(fnode)):
+            return None
+        return fnode, self_val
+
+    def yield_from_helper(self, n, st, fnode, self_val):
+        """PEP 380: `yield from g(...)` runs g's body as part of this generator: what it yields is yielded here."""
+        from pyvc.state import Frame
+        out = []
+        call = n.value
+        for (s1, args) in self.ev_list(call.args, st):
+            for (s2, kwvals) in self.ev_list([k.value for k in call.keywords], s1):
+                if any(k.arg is None for k in call.keywords):
+                    self.unsupported(n, "**kwargs call")
+                env = self.bind_params(fnode, args, {k.arg: v for k, v in zip(call.keywords, kwvals)}, call, self_val=self_val)
+                s2.frames.append(Frame(env, None, fnode))
+                self.cur_fn_stack.append(fnode)
+                try:
+                    res = self.exec_block(fnode.body, s2)
+                finally:
+                    self.cur_fn_stack.pop()
+                for o in res:
+                    o.st.frames.pop()
+                    if o.kind in ("fall", "return"):
+                        out.append((o.st, NONE))
+                    elif o.kind == "raise":
+                        self.raise_in(o.st, o.val)
+                    else:
+                        self.unsupported(n, f"{o.kind} leaving a generator helper")
+        return out
+
     def e_YieldFrom(self, n, st):
+        if self.inline_depth == 0:
+            h = self.generator_helper(st, n.value)
+            if h is not None:
+                return self.yield_from_helper(n, st, *h)
+        if self.inline_depth == 0 and self.single_symbolic_comp(n.value, st):
+            y = _ast.Expr(value=_ast.Yield(value=n.value.elt))
+            loop = self.comp_as_loop(n.value, y)
+            return [(s2, NONE) for s2 in self.run_desugared([loop], st, n)]
         out = []
         for (s, v) in self.ev(n.value, st):
-            if isinstance(v, VSeq) and isinstance(v.tag, tuple) and v.tag[0] == "seq":
+            if isinstance(v, VSeq) and isinstance(v.tag, tuple) and v.tag[0] == "seq" and self.inline_depth == 0:
                 s.ghost["Y"] = z3.Concat(ghost_y(s), v.tag[1])
                 out.append((s, NONE))
             else:
+                s.ghost["Y_unknown"] = True
                 out.extend(super().e_YieldFrom(n, s))
         return out
+
+    def s_Expr(self, s, st):
+        v = s.value
+        if isinstance(v, _ast.Call) and isinstance(v.func, _ast.Attribute) and v.func.attr == "extend" and len(v.args) == 1 \
+                and not v.keywords and isinstance(v.func.value, _ast.Name) and self.single_symbolic_comp(v.args[0], st):
+            app = _ast.Expr(value=_ast.Call(func=_ast.Attribute(value=v.func.value, attr="append", ctx=_ast.Load()),
+                                            args=[v.args[0].elt], keywords=[]))
+            loop = self.comp_as_loop(v.args[0], app)
+            return [Outcome("fall", s2) for s2 in self.run_desugared([loop], st, s)]
+        return super().s_Expr(s, st)
+
+    def e_ListComp(self, n, st):
+        if self.inline_depth == 0 and self.single_symbolic_comp(n, st) and self.contract is not None \
+                and any(isinstance(k, str) for k in self.contract.loops) and isinstance(n.generators[0].target, ast_Name) \
+                and self.role_of_iter(n.generators[0].iter, st) in self.contract.loops:
+            tmp = f"_comp{n.lineno}_{n.col_offset}"
+            init = _ast.Assign(targets=[_ast.Name(id=tmp, ctx=_ast.Store())], value=_ast.List(elts=[], ctx=_ast.Load()))
+            app = _ast.Expr(value=_ast.Call(func=_ast.Attribute(value=_ast.Name(id=tmp, ctx=_ast.Load()), attr="append", ctx=_ast.Load()),
+                                            args=[n.elt], keywords=[]))
+            loop = self.comp_as_loop(n, app)
+            _ast.copy_location(init, n)
+            _ast.fix_missing_locations(init)
+            return [(s2, s2.lookup(tmp)) for s2 in self.run_desugared([init, loop], st, n)]
+        return self.e_ListComp_sym(n, st)
+
+    def role_of_iter(self, e, st):
+        mark = len(self.sinks[-1])
+        try:
+            its = self.ev(e, st.fork())
+        except ops.Unsupported:
+            its = []
+        del self.sinks[-1][mark:]
+        roles = {self.loop_role(_ast.For(), it, s2) for (s2, it) in its if self.concrete_items(s2, it) is None}
+        return roles.pop() if len(roles) == 1 else None
 
     # -- lists built by append inside symbolic loops: heap kind 'seqlist' (data = z3 Seq term) --
     def havoc_loop_state(self, st, body, spec, extra_names=()):
         keep = {}
-        for name, sort in getattr(spec, "seq_lists", {}).items():
-            v = st.lookup(name)
-            if isinstance(v, VRef):
-                keep[v.ref] = (name, sort)
+        acc_sort = getattr(spec, "acc_sort", None)
+        if acc_sort is not None:
+            name = self.accumulator(st, body)
+            if name is None:
+                self.unsupported(body[0] if body else None, "loop with an accumulator invariant: no unique list the body appends to")
+            st.ghost["acc"] = st.lookup(name).ref
+            keep[st.lookup(name).ref] = (name, acc_sort)
         # the client object: callee contracts' frames only touch `_access_token` (token_frame); a loop body without
         # direct attribute stores therefore leaves every other field as it is
         clients = {}
@@ -647,6 +990,14 @@ class C18Executor(Executor):
 
     def list_method(self, st, obj, name, args, kwargs, node):
         o = st.obj(obj.ref)
+        if name == "extend" and len(args) == 1 and isinstance(args[0], VSeq) and isinstance(args[0].tag, tuple) and args[0].tag[0] == "seq" \
+                and o.kind in ("list", "seqlist"):
+            # extending by the value of a call under contract (a generator's yielded sequence / a returned list)
+            term = args[0].tag[1]
+            cur = seq_of(st, obj, term.sort().basis())
+            if cur is not None:
+                st.heap[obj.ref] = HeapObj("seqlist", z3.Concat(cur, term), SEQ_ELEM_KIND[term.sort().basis().name()], o.fresh)
+                return [(st, NONE)]
         if o.kind == "seqlist":
             if name == "append" and isinstance(args[0], VExt) and args[0].sort == o.cls:
                 st.wobj(obj.ref).data = z3.Concat(o.data, z3.Unit(args[0].t))
@@ -670,7 +1021,24 @@ class C18Executor(Executor):
         spec = self.loop_spec(s)
         if not isinstance(spec, CLoop):
             return super().s_While(s, st)
+        # `while True: if not X: break; ...`  ==  `while X: ...`
+        if isinstance(s.test, _ast.Constant) and s.test.value is True and s.body and isinstance(s.body[0], _ast.If) \
+                and isinstance(s.body[0].test, _ast.UnaryOp) and isinstance(s.body[0].test.op, _ast.Not) \
+                and isinstance(s.body[0].test.operand, _ast.Name) and not s.body[0].orelse \
+                and len(s.body[0].body) == 1 and isinstance(s.body[0].body[0], _ast.Break) and not s.orelse:
+            s2 = _ast.While(test=s.body[0].test.operand, body=s.body[1:] or [_ast.Pass()], orelse=[])
+            _ast.copy_location(s2, s)
+            _ast.fix_missing_locations(s2)
+            s = s2
         label = spec.label or f"L{s.lineno}"
+        if not isinstance(s.test, _ast.Name):
+            self.unsupported(s, "page loop whose test is not a plain cursor variable")
+        st.ghost["cursor"] = s.test.id
+        if spec.acc_sort is not None:
+            acc = self.accumulator(st, s.body)
+            if acc is None:
+                self.unsupported(s, "page loop: no unique list the body appends to")
+            st.ghost["acc"] = st.lookup(acc).ref
         entry = st.fork()
         outs = []
         self.add_vc("inv-init", label, st.pc, spec.inv(LoopCtx(self, st, z3.IntVal(0), entry)), loc=self.loc(s))
@@ -681,6 +1049,7 @@ class C18Executor(Executor):
         body_st.ghost["k"] = k
         body_st.assume(self._b(spec.inv(LoopCtx(self, body_st, k, entry))))
         after0 = body_st.fork()
+        body_st.ghost["page"] = body_st.lookup(s.test.id)
         for (s2, g) in self.ev(s.test, body_st):
             for (s3, b) in self.fork_truth(s2, g):
                 if not b:
@@ -746,7 +1115,7 @@ class C18Executor(Executor):
             return [(s3, VSymBag(seq.length, elem, keep))]
         return super().e_GeneratorExp(n, st)
 
-    def e_ListComp(self, n, st):
+    def e_ListComp_sym(self, n, st):
         r = self.sym_comp(n, n.elt, st)
         if r is not None:
             s3, seq, elem, keep, kind, filtered = r
@@ -1446,12 +1815,42 @@ FP_FOUND = z3.Function("folder_lookup_found", CtxS, S, B)
 FP_ITEM = z3.Function("folder_lookup_item", CtxS, S, JsonS)
 
 
+RECDEFS: dict = {}     # name -> (function, formal parameters, body): the definition table of the spec functions
+
+
+def defrec(f, params, body):
+    z3.RecAddDefinition(f, params, body)
+    RECDEFS[f.name()] = (f, list(params), body)
+
+
+def unfold_instances(terms):
+    """One-step unfoldings `F(args) == body[args]` for every ground application of a spec function in `terms`.
+    z3's own unfolding of recursive definitions is unreliable on these VCs (measured: the valid step VC of the walk is
+    answered `sat` for 9 of 12 random seeds, `unsat` for 12 of 12 once this instance is among the hypotheses); the
+    instances are consequences of the definitions, so adding them is sound."""
+    seen, stack, out, done = set(), list(terms), [], set()
+    while stack:
+        x = stack.pop()
+        if x.get_id() in seen:
+            continue
+        seen.add(x.get_id())
+        if z3.is_quantifier(x):
+            continue                       # applications under binders mention bound variables
+        if z3.is_app(x):
+            d = RECDEFS.get(x.decl().name())
+            if d is not None and x.num_args() == len(d[1]) and x.get_id() not in done:
+                done.add(x.get_id())
+                out.append(x == z3.substitute(d[2], *zip(d[1], x.children())))
+            stack.extend(x.children())
+    return out
+
+
 def _macro(name, sorts, build):
     """Non-recursive definition (z3 define-fun): keeps the bodies of the recursive spec functions free of nested
     case splits (z3's recfun engine loops when an if-condition inside a recursive body contains a recursive call)."""
     f = z3.RecFunction(name, *sorts)
     xs = [z3.Const(f"{name}_x{i}", srt) for i, srt in enumerate(sorts[:-1])]
-    z3.RecAddDefinition(f, xs, build(*xs))
+    defrec(f, xs, build(*xs))
     return f
 
 
@@ -1484,18 +1883,18 @@ _u, _pp, _k = z3.String("u_def"), z3.String("pp_def"), z3.Int("k_def")
 _ctx, _flt = z3.Const("ctx_def", CtxS), z3.Const("flt_def", FltS)
 _w = z3.Const("w_def", SQF)
 URLK = z3.RecFunction("page_url", S, I, S)                      # k-th page URL of the chain starting at u
-z3.RecAddDefinition(URLK, [_u, _k], z3.If(_k <= 0, _u, next_url(URLK(_u, _k - 1))))
+defrec(URLK, [_u, _k], z3.If(_k <= 0, _u, next_url(URLK(_u, _k - 1))))
 PF = z3.RecFunction("page_files", S, S, I, SQF)                 # files among the first k items of page u
-z3.RecAddDefinition(PF, [_u, _pp, _k], z3.If(_k <= 0, z3.Empty(SQF), z3.Concat(
+defrec(PF, [_u, _pp, _k], z3.If(_k <= 0, z3.Empty(SQF), z3.Concat(
     PF(_u, _pp, _k - 1), z3.If(is_file(item_at(_u, _k - 1)), z3.Unit(META_OF(item_at(_u, _k - 1), _pp)), z3.Empty(SQF)))))
 FILES = z3.RecFunction("chain_files", S, S, I, SQF)             # files of the first k pages
-z3.RecAddDefinition(FILES, [_u, _pp, _k], z3.If(_k <= 0, z3.Empty(SQF), z3.Concat(
+defrec(FILES, [_u, _pp, _k], z3.If(_k <= 0, z3.Empty(SQF), z3.Concat(
     FILES(_u, _pp, _k - 1), PF(URLK(_u, _k - 1), _pp, n_items(URLK(_u, _k - 1))))))
 PFOLD = z3.RecFunction("page_folders", S, I, SQJ)
-z3.RecAddDefinition(PFOLD, [_u, _k], z3.If(_k <= 0, z3.Empty(SQJ), z3.Concat(
+defrec(PFOLD, [_u, _k], z3.If(_k <= 0, z3.Empty(SQJ), z3.Concat(
     PFOLD(_u, _k - 1), z3.If(is_folder(item_at(_u, _k - 1)), z3.Unit(item_at(_u, _k - 1)), z3.Empty(SQJ)))))
 FOLD = z3.RecFunction("chain_folders", S, I, SQJ)
-z3.RecAddDefinition(FOLD, [_u, _k], z3.If(_k <= 0, z3.Empty(SQJ), z3.Concat(
+defrec(FOLD, [_u, _k], z3.If(_k <= 0, z3.Empty(SQJ), z3.Concat(
     FOLD(_u, _k - 1), PFOLD(URLK(_u, _k - 1), n_items(URLK(_u, _k - 1))))))
 
 
@@ -1517,13 +1916,13 @@ def def_folders_all(u):
 
 WALK = z3.RecFunction("walk", CtxS, S, S, SQF)                  # preorder: files of the folder, then each subfolder
 WF = z3.RecFunction("walk_subfolders", CtxS, S, S, I, SQF)      # ... the first k subfolders of the listing at u
-z3.RecAddDefinition(WALK, [_ctx, _u, _pp], z3.Concat(files_all(_u, _pp), WF(_ctx, _u, _pp, z3.Length(folders_all(_u)))))
+defrec(WALK, [_ctx, _u, _pp], z3.Concat(files_all(_u, _pp), WF(_ctx, _u, _pp, z3.Length(folders_all(_u)))))
 _f = folders_all(_u)[_k - 1]
-z3.RecAddDefinition(WF, [_ctx, _u, _pp, _k], z3.If(_k <= 0, z3.Empty(SQF), z3.Concat(
+defrec(WF, [_ctx, _u, _pp, _k], z3.If(_k <= 0, z3.Empty(SQF), z3.Concat(
     WF(_ctx, _u, _pp, _k - 1),
     z3.If(f_has_id(_f), WALK(_ctx, CU(_ctx, f_id(_f)), join_path(_pp, f_name(_f))), z3.Empty(SQF)))))
 FILTER = z3.RecFunction("filter_prefix", FltS, SQF, I, SQF)     # matching ones among the first k
-z3.RecAddDefinition(FILTER, [_flt, _w, _k], z3.If(_k <= 0, z3.Empty(SQF), z3.Concat(
+defrec(FILTER, [_flt, _w, _k], z3.If(_k <= 0, z3.Empty(SQF), z3.Concat(
     FILTER(_flt, _w, _k - 1), z3.If(MATCHES(_flt, _w[_k - 1]), z3.Unit(_w[_k - 1]), z3.Empty(SQF)))))
 
 
@@ -1548,7 +1947,7 @@ def waf_spec(ctx, flt, path):
 
 
 LFF = z3.RecFunction("filtered_over_targets", CtxS, FltS, I, SQF)
-z3.RecAddDefinition(LFF, [_ctx, _flt, _k], z3.If(_k <= 0, z3.Empty(SQF), z3.Concat(
+defrec(LFF, [_ctx, _flt, _k], z3.If(_k <= 0, z3.Empty(SQF), z3.Concat(
     LFF(_ctx, _flt, _k - 1), WAF(_ctx, _flt, TARGET_AT(_flt, _k - 1)))))
 
 
@@ -1560,7 +1959,7 @@ def chain_finite(u):
 
 
 TAKE = z3.RecFunction("take", SQF, I, SQF)                      # the first k elements, built by appending one at a time
-z3.RecAddDefinition(TAKE, [_w, _k], z3.If(_k <= 0, z3.Empty(SQF), z3.Concat(TAKE(_w, _k - 1), z3.Unit(_w[_k - 1]))))
+defrec(TAKE, [_w, _k], z3.If(_k <= 0, z3.Empty(SQF), z3.Concat(TAKE(_w, _k - 1), z3.Unit(_w[_k - 1]))))
 
 
 def take_all():
@@ -1654,7 +2053,7 @@ def y_is(c, term):
     if at_call_site(c):
         return z3.BoolVal(True)       # callers get the yielded sequence as the call's value (gen_result)
     if c.st.ghost.get("Y_unknown"):
-        return z3.BoolVal(False)
+        raise ops.Unsupported("what the generator yields is not tracked on this path (unrecognised yield shape)")
     return ghost_y(c.st) == term
 
 
@@ -1668,7 +2067,10 @@ def gen_result(term_fn):
 
 def part_c(reg):
     out = []
-    CL = p_client()
+    # the listing layer never reads the token itself (callee contracts' frames own it) and, where the site id is a
+    # parameter, not the cached site id either: one alternative instead of four keeps the VC count down
+    CL = p_client(token=p_unk(), site=p_unk())
+    CL_SITE = p_client(token=p_unk())
 
     # -- _build_children_url: URL construction is opaque (TRUSTED: exercised by the replayer's fake server) -------
     def curl(c):
@@ -1715,17 +2117,17 @@ def part_c(reg):
 
     # -- _list_items_paginated ------------------------------------------------------------------------------------
     def lip_outer(lc):
-        url, pp = lc.entry.lookup("url").t, lc.entry.lookup("parent_path").t
+        url, pp = fn_arg(lc, "url").t, fn_arg(lc, "parent_path").t
         k = lc.i
         j = z3.Int(fresh_name("j!inv"))
-        return z3.And(cur_url(lc["current_url"]) == URLK(url, k),
+        return z3.And(cur_url(cursor(lc)) == URLK(url, k),
                       ghost_y(lc.st) == FILES(url, pp, k),
                       z3.ForAll([j], z3.Implies(z3.And(j >= 0, j < k), URLK(url, j) != sv("")), patterns=[URLK(url, j)]))
 
     def lip_inner(lc):
-        url, pp = lc.entry.lookup("url").t, lc.entry.lookup("parent_path").t
+        url, pp = fn_arg(lc, "url").t, fn_arg(lc, "parent_path").t
         k = lc.st.ghost["k"]
-        return ghost_y(lc.st) == z3.Concat(FILES(url, pp, k), PF(lc["current_url"].t, pp, lc.i))
+        return ghost_y(lc.st) == z3.Concat(FILES(url, pp, k), PF(page_url(lc).t, pp, lc.i))
 
     out.append(FnContract(
         target=f"{CLIENT}::SharePointRestClient._list_items_paginated",
@@ -1736,7 +2138,7 @@ def part_c(reg):
         ensures=[("yields-exactly-the-files-of-all-pages-in-order", lambda c: y_is(c, files_all(c.args["url"].t, c.args["parent_path"].t))),
                  ("responses-closed", closed)],
         raises=listing_raises(),
-        loops={0: CLoop(inv=lip_outer, label="pages"), 1: LoopSpec(inv=lip_inner, label="items")},
+        loops={"while": CLoop(inv=lip_outer, label="pages"), "for-json": LoopSpec(inv=lip_inner, label="items")},
         modifies=("self",), frame=token_frame,
         result_maker=gen_result(lambda ctx: files_all(ctx.args["url"].t, ctx.args["parent_path"].t)),
         note="yielded = files of pages 0..k in order (loop invariant over the abstract page chain)",
@@ -1751,36 +2153,35 @@ def part_c(reg):
     AF = all_folders
 
     def gf_outer(lc):
-        url = lc.entry.lookup("url").t
+        url = fn_arg(lc, "url").t
         k = lc.i
         j = z3.Int(fresh_name("j!inv"))
-        fs = seq_of(lc.st, lc["folders"], JsonS)
+        fs = seq_of(lc.st, acc_list(lc), JsonS)
         if fs is None:
-            return z3.BoolVal(False)
-        return z3.And(cur_url(lc["current_url"]) == URLK(url, k), fs == FOLD(url, k), AF(fs),
+            raise ops.Unsupported("accumulated list is not a list of JSON items")
+        return z3.And(cur_url(cursor(lc)) == URLK(url, k), fs == FOLD(url, k), AF(fs),
                       z3.ForAll([j], z3.Implies(z3.And(j >= 0, j < k), URLK(url, j) != sv("")), patterns=[URLK(url, j)]))
 
     def gf_inner(lc):
-        url = lc.entry.lookup("url").t
+        url = fn_arg(lc, "url").t
         k = lc.st.ghost["k"]
-        fs = seq_of(lc.st, lc["folders"], JsonS)
+        fs = seq_of(lc.st, acc_list(lc), JsonS)
         if fs is None:
-            return z3.BoolVal(False)
-        return z3.And(fs == z3.Concat(FOLD(url, k), PFOLD(lc["current_url"].t, lc.i)), AF(fs))
+            raise ops.Unsupported("accumulated list is not a list of JSON items")
+        return z3.And(fs == z3.Concat(FOLD(url, k), PFOLD(page_url(lc).t, lc.i)), AF(fs))
 
     def gf_post(c):
-        if not isinstance(c.result, VRef):
-            return z3.BoolVal(False)
         fs = seq_of(c.st, c.result, JsonS)
         if fs is None:
-            return z3.BoolVal(False)
+            raise ops.Unsupported("result of _get_folders_from_url is not a recognised list of JSON items")
         return z3.And(fs == folders_all(c.args["url"].t), all_folders(fs))
 
     def gf_result(ex, st, ctx):
         token_after_success(ex, st, ctx)
         t = folders_all(ctx.args["url"].t)
-        st.assume(all_folders(t))
-        st.assume(all_folders_nth(t))       # = all_folders(t) by the proved lemma chain `members-by-index` (lemmas())
+        # callers get the proved fact as ground instances at the elements they access (`assign` below): the quantified
+        # forms made z3's instantiation wander in the callers' VCs (timeouts that came and went with machine load)
+        st.ghost[("all-folders", t.get_id())] = t       # = all_folders(t) by the proved lemma chain `members-by-index` (lemmas())
         return seq_value(t, "Json")
 
     out.append(FnContract(
@@ -1790,8 +2191,8 @@ def part_c(reg):
             chain_finite(c.args["url"].t), def_folders_all(c.args["url"].t)),
         ensures=[("returns-exactly-the-folders-of-all-pages-in-order", body_only(gf_post)), ("responses-closed", closed)],
         raises=listing_raises(),
-        loops={0: CLoop(inv=gf_outer, label="pages", seq_lists={"folders": JsonS}),
-               1: CLoop(inv=gf_inner, label="items", seq_lists={"folders": JsonS})},
+        loops={"while": CLoop(inv=gf_outer, label="pages", acc_sort=JsonS),
+               "for-json": CLoop(inv=gf_inner, label="items", acc_sort=JsonS)},
         modifies=("self",), frame=token_frame,
         result_maker=gf_result,
     ))
@@ -1807,7 +2208,7 @@ def part_c(reg):
         return WALK(ctx, u, args["parent_path"].t)
 
     def entry_args(lc):
-        return {k: lc.entry.lookup(k) for k in ("site_id", "item_id", "drive_id", "parent_path")}
+        return {k: fn_arg(lc, k) for k in ("site_id", "item_id", "drive_id", "parent_path")}
 
     def wd_first(lc):
         a = entry_args(lc)
@@ -1825,7 +2226,7 @@ def part_c(reg):
         if at_call_site(c):
             return z3.BoolVal(True)
         _ctx_, u = walk_url(c.args)
-        return take_all()
+        return z3.BoolVal(True)
 
     out.append(FnContract(
         target=f"{CLIENT}::SharePointRestClient._walk_drive_items",
@@ -1835,7 +2236,7 @@ def part_c(reg):
         ensures=[("yields-the-preorder-walk:-each-file-once-with-parent-path-=-joined-ancestor-names",
                   lambda c: y_is(c, walk_term(c.args))), ("responses-closed", closed)],
         raises=listing_raises(),
-        loops={0: LoopSpec(inv=wd_first, label="files"), 1: LoopSpec(inv=wd_second, label="subfolders")},
+        loops={"for-records": LoopSpec(inv=wd_first, label="files"), "for-json": LoopSpec(inv=wd_second, label="subfolders")},
         modifies=("self",), frame=token_frame,
         result_maker=gen_result(lambda ctx: walk_term(ctx.args)),
         note="PY-REC: the recursive call is used through this same contract (partial correctness; TREE-FINITE)",
@@ -1892,7 +2293,7 @@ def part_c(reg):
         w = lc.seq.tag[1] if isinstance(lc.seq, VSeq) and isinstance(lc.seq.tag, tuple) else None
         if w is None:
             return z3.BoolVal(False)
-        flt = lc.entry.lookup("file_filter").t
+        flt = fn_arg(lc, "file_filter").t
         return ghost_y(lc.st) == FILTER(flt, w, lc.i)
 
     out.append(FnContract(
@@ -1904,7 +2305,7 @@ def part_c(reg):
         ensures=[("yields-exactly-the-matching-files-of-the-walk-in-order", lambda c: y_is(c, waf_term(c.args))),
                  ("responses-closed", closed)],
         raises=listing_raises(),
-        loops={0: LoopSpec(inv=waf_inv, label="walk")},
+        loops={"for-records": LoopSpec(inv=waf_inv, label="walk")},
         modifies=("self",), frame=token_frame,
         result_maker=gen_result(lambda ctx: waf_term(ctx.args)),
     ))
@@ -1927,21 +2328,21 @@ def part_c(reg):
         return z3.BoolVal(False) if t is None else y_is(c, t)
 
     def lff_inv(lc):
-        sid = lc.st.obj(lc.entry.lookup("self").ref).data["_site_id"]
+        sid = lc.st.obj(fn_arg(lc, "self").ref).data["_site_id"]
         if not isinstance(sid, VStr):
             return z3.BoolVal(False)
-        ctx = ctx_of(sid, lc.entry.lookup("drive_id"))
-        flt = lc.entry.lookup("file_filter").t
+        ctx = ctx_of(sid, fn_arg(lc, "drive_id"))
+        flt = fn_arg(lc, "file_filter").t
         return ghost_y(lc.st) == LFF(ctx, flt, lc.i)
 
     out.append(FnContract(
         target=f"{CLIENT}::SharePointRestClient.list_files_filtered",
-        params=[("self", CL), ("file_filter", p_filter_abs()), ("drive_id", P_DRIVE)],
+        params=[("self", CL_SITE), ("file_filter", p_filter_abs()), ("drive_id", P_DRIVE)],
         generator=True,
         ensures=[("yields-exactly-the-matching-files:-per-target-folder-in-order,-or-of-the-whole-drive", body_only(lff_post)),
                  ("responses-closed", closed)],
         raises=[Raises(k, when=lambda c: z3.BoolVal(True) if at_call_site(c) else closed(c)) for k in FAMILY],
-        loops={0: LoopSpec(inv=lff_inv, label="targets")},
+        loops={"for-strings": LoopSpec(inv=lff_inv, label="targets")},
         modifies=("self",),
     ))
 
@@ -1972,14 +2373,16 @@ def part_c(reg):
 
         def yields_delegate(c):
             ds = c.st.ghost.get("delegations", ())
-            if len(ds) != 1 or c.st.ghost.get("Y_unknown"):
+            if c.st.ghost.get("Y_unknown"):
+                raise ops.Unsupported("what the wrapper yields is not tracked on this path")
+            if len(ds) != 1:
                 return z3.BoolVal(False)
             return ghost_y(c.st) == ds[0][2]
 
         opt_list = lambda nm: with_default(p_opt(p_seq_str(nm)), NONE)  # noqa
         return FnContract(
             target=f"{CLIENT}::SharePointRestClient.{meth}",
-            params=[("self", CL), ("since", p_dt()), ("folder_paths", opt_list(f"{meth}.folder_paths")),
+            params=[("self", CL_SITE), ("since", p_dt()), ("folder_paths", opt_list(f"{meth}.folder_paths")),
                     ("extensions", opt_list(f"{meth}.extensions")), ("drive_id", P_DRIVE)],
             generator=True,
             ensures=[(f"delegates-once-with-a-filter-that-has-only-{date_field}=since-and-the-given-folders-and-extensions", body_only(delegated)),
@@ -2001,26 +2404,28 @@ def part_c(reg):
 
     def laf_post(c):
         w = laf_walk(c.st.obj(c.args["self"].ref).data)
-        if w is None or not isinstance(c.result, VRef):
-            return z3.BoolVal(False)
+        if w is None:
+            raise ops.Unsupported("site id not cached as a string after get_site_id")
         fs = seq_of(c.st, c.result, FMS)
-        return z3.BoolVal(False) if fs is None else fs == w
+        if fs is None:
+            raise ops.Unsupported("result of list_all_files is not a recognised list of file records")
+        return fs == w
 
     def laf_inv(lc):
         w = lc.seq.tag[1] if isinstance(lc.seq, VSeq) and isinstance(lc.seq.tag, tuple) else None
-        fs = seq_of(lc.st, lc["files"], FMS)
+        fs = seq_of(lc.st, acc_list(lc), FMS)
         if w is None or fs is None:
             return z3.BoolVal(False)
         return fs == TAKE(w, lc.i)
 
     out.append(FnContract(
         target=f"{CLIENT}::SharePointRestClient.list_all_files",
-        params=[("self", CL), ("include_root_files", with_default(p_bool(), VBool(True)))],
-        hyps=lambda c: take_all(),
+        params=[("self", CL_SITE), ("include_root_files", with_default(p_bool(), VBool(True)))],
+        hyps=lambda c: z3.BoolVal(True),
         ensures=[("returns-exactly-the-walk-of-the-default-library:-every-file-once,-in-order,-with-its-parent-path", body_only(laf_post)),
                  ("responses-closed", closed)],
         raises=[Raises(k, when=lambda c: z3.BoolVal(True) if at_call_site(c) else closed(c)) for k in FAMILY],
-        loops={0: CLoop(inv=laf_inv, label="collect", seq_lists={"files": FMS})},
+        loops={"for-records": CLoop(inv=laf_inv, label="collect", acc_sort=FMS)},
         modifies=("self",),
     ))
     return out
@@ -2079,38 +2484,69 @@ def caches_policy(repo, tier):
     def G(oid, ok, why, definite=True):
         obls.append(ground_obligation(f"C18/client.py::{oid}", ok, why, "client.py", kind="typestate", definite=definite))
 
-    # P1: responses are obtained only in _send
-    sites = [(name, n.lineno) for name, fn in methods.items() for n in ast.walk(fn)
-             if isinstance(n, ast.Call) and dotted(n.func) == "self._request"]
-    reads = [(name, n.lineno) for name, fn in methods.items() for n in ast.walk(fn)
-             if isinstance(n, ast.Attribute) and n.attr == "_request" and isinstance(n.ctx, ast.Load)]
-    G(f"{cls}/typestate#transport-called-only-in-_send", [s[0] for s in sites] == ["_send"] and [r[0] for r in reads] == ["_send"],
-      f"call sites {sites}, reads {reads}")
+    # call graph of the module (methods of the client class and module-level functions), by simple name
+    fns_all = dict(methods)
+    fns_all.update({q: n for q, n in m.functions.items() if "." not in q})
+
+    def callers(name):
+        """Functions that call `name` or take it as a value (self.name / Class.name / bare name for module functions)."""
+        out = set()
+        for g, fn in fns_all.items():
+            for n in ast.walk(fn):
+                if isinstance(n, ast.Attribute) and n.attr == name and isinstance(n.ctx, ast.Load) and name in methods \
+                        and dotted(n).split(".")[0] in ("self", cls, "cls"):
+                    out.add(g)
+                elif isinstance(n, ast.Name) and n.id == name and isinstance(n.ctx, ast.Load) and name not in methods:
+                    out.add(g)
+        out.discard(name)
+        return out
+
+    def only_within(name, roots, seen=()):
+        """`name` is one of `roots`, or a private helper all of whose callers (transitively) are."""
+        if name in roots:
+            return True
+        if name in seen or not name.startswith("_") or name.startswith("__"):
+            return False
+        cs = callers(name)
+        return bool(cs) and all(only_within(c, roots, seen + (name,)) for c in cs)
+
+    # P1: responses are obtained only within the dynamic extent of _send (its own contract proves that it closes them;
+    #     private helpers it delegates to are executed in place there).  Shape-based: a failure is `unknown`, the native
+    #     replayer (close() calls under fault injection) decides.
+    readers = sorted({name for name, fn in fns_all.items() for n in ast.walk(fn)
+                      if isinstance(n, ast.Attribute) and n.attr == "_request" and isinstance(n.ctx, ast.Load)})
+    ok1 = bool(readers) and all(only_within(r, {"_send"}) for r in readers)
+    G(f"{cls}/typestate#transport-called-only-in-_send", ok1, f"functions reading self._request: {readers}", definite=False)
     uses = [n.lineno for n in ast.walk(m.tree) if isinstance(n, ast.Name) and n.id == "urlopen" and isinstance(n.ctx, ast.Load)]
     init = methods.get("__init__")
     in_init = [n.lineno for n in ast.walk(init) if isinstance(n, ast.Name) and n.id == "urlopen"] if init else []
-    G(f"{cls}/typestate#urlopen-only-as-default-transport", uses == in_init and len(uses) == 1, f"uses at lines {uses}")
+    G(f"{cls}/typestate#urlopen-only-as-default-transport", uses == in_init and len(uses) <= 1, f"uses at lines {uses}", definite=False)
 
-    # P2: who stores the caches
+    # P2: the caches are stored only by __init__ and within the extent of the two functions whose contracts prove
+    #     "unchanged on every failure, equal to the checked value on success"
     def stores(attr):
-        out = []
-        for name, fn in methods.items():
+        out = set()
+        for name, fn in fns_all.items():
             for n in ast.walk(fn):
                 if isinstance(n, ast.Attribute) and n.attr == attr and isinstance(n.ctx, (ast.Store, ast.Del)):
-                    out.append(name)
+                    out.add(name)
         return sorted(out)
-    G(f"{cls}/typestate#_access_token-stored-only-by-__init__-and-fetch_access_token",
-      stores("_access_token") == ["__init__", "fetch_access_token"], str(stores("_access_token")))
-    G(f"{cls}/typestate#_site_id-stored-only-by-__init__-and-get_site_id",
-      stores("_site_id") == ["__init__", "get_site_id"], str(stores("_site_id")))
+    for attr, owner in (("_access_token", "fetch_access_token"), ("_site_id", "get_site_id")):
+        st_ = stores(attr)
+        okp = bool(st_) and all(f == "__init__" or only_within(f, {owner}) for f in st_)
+        G(f"{cls}/typestate#{attr}-stored-only-by-__init__-and-{owner}", okp, str(st_), definite=False)
     dyn = [n.lineno for n in ast.walk(m.tree) if isinstance(n, ast.Call) and dotted(n.func) in ("setattr", "object.__setattr__", "vars")
            or isinstance(n, ast.Attribute) and n.attr == "__dict__"]
-    G(f"{cls}/typestate#no-dynamic-attribute-stores", not dyn, f"lines {dyn}")
+    G(f"{cls}/typestate#no-dynamic-attribute-stores", not dyn, f"lines {dyn}", definite=False)
     if init is not None:
-        consts = [ast.unparse(n.value) for n in ast.walk(init) if isinstance(n, (ast.Assign, ast.AnnAssign)) and
-                  any(isinstance(t, ast.Attribute) and t.attr in ("_access_token", "_site_id")
-                      for t in (n.targets if isinstance(n, ast.Assign) else [n.target]))]
-        G(f"{cls}.__init__/typestate#caches-start-empty", consts == ["None", "None"], str(consts))
+        vals = {}
+        for n in ast.walk(init):
+            if isinstance(n, (ast.Assign, ast.AnnAssign)) and n.value is not None:
+                for t in (n.targets if isinstance(n, ast.Assign) else [n.target]):
+                    if isinstance(t, ast.Attribute) and t.attr in ("_access_token", "_site_id"):
+                        vals.setdefault(t.attr, []).append(isinstance(n.value, ast.Constant) and n.value.value is None)
+        G(f"{cls}.__init__/typestate#caches-start-empty", set(vals) == {"_access_token", "_site_id"} and all(all(v) for v in vals.values()),
+          str(vals), definite=False)
 
     # P3: the store is dominated by the successful request and by the check of what it returned
     class StoreFacts(MustFacts):
@@ -2146,11 +2582,42 @@ def caches_policy(repo, tier):
                         gen_cond=cond_facts(checks))
         res = [r for r in sf.run(fn) if isinstance(r.node, (ast.Assign, ast.AnnAssign))]
         bad = [r.desc for r in res if not r.ok]
+        if not res or bad:
+            # the guard / store is not in the textual shape the dominance analysis knows (inverted test, store moved into a
+            # helper, ...): decide semantically -- the function's contract says exactly this (every failure leaves the cache
+            # unchanged; on success the cache equals the checked value returned), with helpers executed in place
+            why = semantic_cache_rule(repo, meth)
+            if why is not None:
+                obls.append(ground_obligation(f"C18/client.py::{cls}.{meth}/typestate#{attr}-assigned-only-after-successful-response", True,
+                                              why, "client.py", kind="typestate", backend="z3"))
+                continue
         G(f"{cls}.{meth}/typestate#{attr}-assigned-only-after-successful-response", bool(res) and not bad,
-          "; ".join(bad) or f"{len(res)} fact(s) established at the store", definite=bool(res) and all(
-              any(ast.unparse(n.test) == t for n in ast.walk(fn) if isinstance(n, ast.If)) for (t, _b, _f) in checks))
+          "; ".join(bad) or f"{len(res)} fact(s) established at the store", definite=False)   # guard recognised by text only:
+        # the semantic version is the contract of the function (raises => cache unchanged; ensures => cached == checked value)
         fns.append(dict(m.fn_info(f"{cls}.{meth}"), obligations=1))
     return {"obligations": obls, "functions": []}
+
+
+def semantic_cache_rule(repo, meth):
+    """-> reason if every `raises` / `ensures` obligation of the method's contract is proved on the current source, else None."""
+    from pyvc.contracts import Registry
+    from pyvc.exctypes import Universe
+    from pyvc import verify
+    try:
+        reg = Registry()
+        cs = contracts(reg)
+        for c in cs:
+            reg.add(c)
+        c = [c for c in cs if c.target.endswith(f"::SharePointRestClient.{meth}")][0]
+        rep = verify.run_contract("C18", c, reg, Universe(repo), repo=repo, executor_cls=EXECUTOR, executor_kw=EXECUTOR_KW.get(c.target))
+    except Exception:  # noqa
+        return None
+    if rep.error or rep.out_of_subset:
+        return None
+    need = [o for o in rep.obligations if o["kind"] in ("raises", "ensures")]
+    if not need or any(o["status"] != "proved" for o in need) or not any(o["kind"] == "raises" for o in need):
+        return None
+    return f"implied by the contract of {meth} on the current source: {len(need)} raises/ensures obligations proved (cache unchanged on every failure, equal to the checked value on success)"
 
 
 def known_findings(kf, violations, repo, tier):
